@@ -31,6 +31,8 @@ func init() { Register("race", func() Component { return &raceC{} }) }
 var raceHdr = regexp.MustCompile(`^(Read|Write|Previous read|Previous write) at 0x[0-9a-f]+ by (main )?goroutine`)
 var raceFn = regexp.MustCompile(`^  (github\.com/f1bonacc1/process-compose/src/[^\s(]+(\([^)]*\))?[^\s(]*)\(`)
 
+var raceDecl = regexp.MustCompile(`^[A-Za-z0-9_/]+\.(\(\*?[A-Za-z0-9_]+\)\.)?[A-Za-z0-9_]+`)
+
 // raceSignatures extracts, per DATA RACE block, the innermost project function of each of the two accesses.
 func raceSignatures(log string) []string {
 	set := map[string]bool{}
@@ -44,7 +46,11 @@ func raceSignatures(log string) []string {
 				for j := i + 1; j < len(lines) && strings.TrimSpace(lines[j]) != ""; j++ {
 					if m := raceFn.FindStringSubmatch(lines[j]); m != nil {
 						f := strings.TrimPrefix(m[1], "github.com/f1bonacc1/process-compose/src/")
-						f = strings.TrimSuffix(f, ".func1")
+						// the declared function or method only: closures, defer and go wrappers
+						// (run.func1, run.deferwrap1, ...) count as their enclosing function
+						if mm := raceDecl.FindString(f); mm != "" {
+							f = mm
+						}
 						fns = append(fns, f)
 						break
 					}
@@ -123,7 +129,7 @@ func (c *raceC) Exec(op string) string {
 func (c *raceC) Gen(r *rand.Rand, tier string, emit func(string)) {
 	n := 6
 	if tier == "thorough" {
-		n = 60
+		n = 36
 	}
 	// several workers in parallel would perturb each other's timing; run them one after another
 	for i := 0; i < n; i++ {
